@@ -44,10 +44,10 @@ def model_input(case_lines, impl_lines, oracle_prefix=("snp ",)):
     return "\n".join(out) + "\n"
 
 
-def run_both(cases, exe, model, model_args=None, silent_cmds=("R",), timeout=900):
+def run_both(cases, exe, model, model_args=None, silent_cmds=("R",), timeout=900, env=None):
     """cases: list of lists of script lines.  Returns (impl results, model results) as from C.run_cases."""
     texts = ["\n".join(c) + "\n" for c in cases]
-    impl = C.run_cases(exe, texts, timeout=timeout)
+    impl = C.run_cases(exe, texts, timeout=timeout, env=env)
     minputs = [model_input(cases[i], impl[i][0]) for i in range(len(cases))]
     mod = C.run_cases(model, minputs, timeout=timeout, wrapper=None) if not model_args else \
         run_cases_args(model, model_args, minputs, timeout)
